@@ -126,6 +126,10 @@ def leaf_alphabet(ws, f, mode, max_len, item=False, default_of=None):
         d = default_of(f)
         if not any(bridge.same_wire(d, x) for x in out):
             out.insert(1, d)
+        if kt in I and isinstance(d, int) and not isinstance(d, bool):
+            for nb in (d - 1, d + 1):  # the neighbours of an explicit default (-2 next to -1: equal hashes in CPython)
+                if I[kt][0] <= nb <= I[kt][1] and nb not in out:
+                    out.append(nb)
         if f.tag is not None:  # base of a tagged field = its default (elided on the wire)
             i = next(i for i, x in enumerate(out) if bridge.same_wire(d, x))
             out.insert(0, out.pop(i))
@@ -461,4 +465,9 @@ def freeze(w):
         return ("f", struct.pack(">d", w))
     if isinstance(w, bool):
         return ("b", w)
+    if isinstance(w, int):
+        # as text: CPython hashes integers modulo 2^61 - 1 and maps -1 to -2, so hash(-1) == hash(-2) and
+        # hash(2^63 - 1) == hash(3); the explorers deduplicate states by hash(freeze(w)), and two states that differ in
+        # one such leaf must not be taken for one (string hashes have no such systematic collisions)
+        return "#" + str(w)
     return w
